@@ -36,6 +36,16 @@ func debugLoops(P *Prog) {
 		fmt.Println(l)
 	}
 	fmt.Printf("%d loops, %d early exits\n", total, len(lines))
+	for _, f := range P.ModuleFuncs("pk", "ck") {
+		if isTestFile(P, f) || f.Parent() != nil || !(len(f.Name()) > 6 && f.Name()[:6] == "GetAll") {
+			continue
+		}
+		for _, a := range Calls(f, false, "builtin.append") {
+			if inLoop(a) {
+				fmt.Printf("collector %-55s append every-iteration=%v\n", shortName(ssaFuncName(f)), everyIteration(a))
+			}
+		}
+	}
 	for _, f := range P.ModuleFuncs("github.com/cosmos/interchain-security/v7/x") {
 		if isTestFile(P, f) {
 			continue
